@@ -193,6 +193,12 @@ def points(thorough, seed):
     for backend in BACKENDS if thorough else ("snarkjs", "zkinterface", "nobackend"):
         for k, mode, opn in itertools.product((0, 3), ("fall", "exit(0)", "exit(1)", "ValueError"), ("prove", "keygen", "verify")):
             pts.append((backend, k, mode, "none", False, False, opn))
+    # a helper thread of the program that dies of its own uncaught exception (or ends normally) before the main thread ends
+    for backend in ("snarkjs", "zkinterface", "qaptools") if thorough else ("snarkjs", "zkinterface"):
+        for k, mode, caught in itertools.product((0, 2, 3) if thorough else (0, 3), MODES, ("thread-dies", "thread-ok")):
+            pts.append((backend, k, mode, caught, True))
+        for k, mode in itertools.product((0, 3), ("fall", "exit(1)", "ValueError")):
+            pts.append((backend, k, mode, "thread-dies", False))
     # an exception hook already installed by the environment when pysnark is imported
     for backend in ("snarkjs", "qaptools") if thorough else ("snarkjs",):
         for k, mode, caught in itertools.product((0, 2, 3), MODES, CAUGHT if thorough else ("none", "exception")):
